@@ -285,6 +285,10 @@ mod sx {
         "tagged*three$tag=t",
         "other*two$tag=u",
         "other*three$tag=u",
+        // more regex rules: the timed history plans fill the regex manager with more than a handful
+        // of entries before the clock is moved
+        // (each has a token of its own, so that the other plans never visit them)
+        "/rex1/*gg", "/rex2/*gg", "/rex3/*gg", "/rex4/*gg", "/rex5/*gg", "/rex6/*gg", "/rex7/*gg", "/rex8/*gg", "/rex9/*gg", "/rex10/*gg",
     ];
 
     #[derive(Clone, Copy, Debug, PartialEq)]
@@ -315,6 +319,8 @@ mod sx {
         "https://x.com/tagged1three",
         "https://x.com/other1two",
         "https://x.com/other1three",
+        "https://x.com/rex1/1gg", "https://x.com/rex2/1gg", "https://x.com/rex3/1gg", "https://x.com/rex4/1gg", "https://x.com/rex5/1gg",
+        "https://x.com/rex6/1gg", "https://x.com/rex7/1gg", "https://x.com/rex8/1gg", "https://x.com/rex9/1gg", "https://x.com/rex10/1gg",
     ];
 
     /// Operations of a preamble: executed by the controlling thread (no scheduling points) on the
@@ -327,6 +333,13 @@ mod sx {
         /// policy of the base plans every use recompiles from the rule at hand, which hides whatever
         /// a stale cache entry would do
         KeepCompiled,
+        /// serialize the engine and deserialize the bytes into the same engine
+        Reload,
+        /// discard policy (cleanup interval, discard-unused time) in milliseconds
+        Policy(u64, u64),
+        /// move the virtual clock (timed plans only: their child process runs on the virtual clock
+        /// of the verification hooks, which stands still otherwise)
+        Advance(u64),
     }
     static PREAMBLE: Mutex<Vec<P>> = Mutex::new(Vec::new());
     pub fn set_preamble(p: &[P]) {
@@ -348,6 +361,12 @@ mod sx {
                 }
                 P::Tags(t) => e.use_tags(t),
                 P::KeepCompiled => e.set_regex_discard_policy(Default::default()),
+                P::Policy(i, d) => e.set_regex_discard_policy(RegexManagerDiscardPolicy { cleanup_interval: Duration::from_millis(i), discard_unused_time: Duration::from_millis(d) }),
+                P::Advance(ms) => verif_hooks::advance_clock(Duration::from_millis(ms)),
+                P::Reload => {
+                    let bytes = e.serialize_raw().expect("serialize");
+                    e.deserialize(&bytes).expect("deserialize");
+                }
             }
         }
         e
@@ -419,6 +438,31 @@ mod sx {
                 p.push(P::Tags(b));
                 v.push((format!("warm,tags{},warm,tags{}", nm(a), nm(b)), p));
             }
+        }
+        // timed plans (names start with "t:"; virtual clock): a policy whose cleanup interval lies
+        // between "always" and "never", every regex rule used once, then the clock is moved so that
+        // the cleanup is due (and entries are or are not old enough to be discarded) exactly when
+        // the threads start; the second variant lets one query run in between
+        let warm_all: Vec<P> = (0..URLS.len()).map(|i| P::Ask(Q::Check(i))).collect();
+        for (i, d, adv) in [(10u64, 3_600_000u64, 20u64), (10, 15, 20), (10, 15, 12), (10, 30, 20), (10, 0, 20)] {
+            let mut p = vec![P::Policy(i, d)];
+            p.extend(warm_all.clone());
+            p.push(P::Advance(adv));
+            v.push((format!("t:policy({},{}),warm-all,advance({})", i, d, adv), p.clone()));
+            p.push(P::Ask(Q::Check(0)));
+            p.push(P::Advance(adv));
+            v.push((format!("t:policy({},{}),warm-all,advance({}),ask,advance({})", i, d, adv, adv), p));
+        }
+        // reloads: every rule of the engine is re-created
+        for (name, ops) in [
+            ("warm,reload", vec![P::Reload]),
+            ("warm,tags[u],reload", vec![P::Tags(&["u"]), P::Reload]),
+            ("warm,reload,tags[u]", vec![P::Reload, P::Tags(&["u"])]),
+            ("warm,reload,warm,tags[t,u]", std::iter::once(P::Reload).chain(warm.iter().cloned()).chain(std::iter::once(P::Tags(&["t", "u"]))).collect()),
+        ] {
+            let mut p = warm0.clone();
+            p.extend(ops);
+            v.push((name.to_string(), p));
         }
         v
     }
@@ -623,6 +667,9 @@ mod sx {
         install();
         let plans = all_plans();
         let (name, plan, pre) = &plans[plan_idx];
+        if name.starts_with("h:t:") {
+            verif_hooks::use_virtual_clock();
+        }
         set_preamble(pre);
         let expect = match sequential_expectation(plan) {
             Ok(e) => e,
@@ -715,7 +762,10 @@ mod sx {
         install();
         let plans = all_plans();
         let pi = case["plan_idx"].as_u64().unwrap_or(0) as usize;
-        let (_, plan, pre) = &plans[pi.min(plans.len() - 1)];
+        let (name, plan, pre) = &plans[pi.min(plans.len() - 1)];
+        if name.starts_with("h:t:") {
+            verif_hooks::use_virtual_clock();
+        }
         set_preamble(pre);
         let choices: Vec<usize> = case["schedule"].as_array().map(|a| a.iter().filter_map(|v| v.as_u64().map(|x| x as usize)).collect()).unwrap_or_default();
         let expect = match sequential_expectation(plan) {
